@@ -142,6 +142,43 @@ def client_roundtrip(fname, m, resp, unit=1):
     return c.asked, c.pos, frame, pdus.resp_to_json(got)
 
 
+def client_history(rep, fname):
+    """the same on a client with a HISTORY: the unit was silent twice, then answered, then sends an exception reply —
+    the bookkeeping of silent units must not make the client ask for the normal reply length when the exception comes"""
+    fcls = FRAMERS[fname]
+    m = {'t': 'readHolding', 'address': 0, 'count': 10}
+    c = StubClient(fcls, b'')
+    unit = 1
+
+    def call(reply_obj):
+        req = msggen.mk_req(m)
+        req.unit_id = unit
+        frame = b''
+        if reply_obj is not None:
+            reply_obj.unit_id = unit
+            reply_obj.transaction_id = (c.transaction.tid + 1) & 0xFFFF
+            frame = StubClient(fcls).framer.buildPacket(reply_obj)
+        c.reply, c.pos, c.asked = frame, 0, []
+        try:
+            got = c.transaction.execute(req)
+        except Exception as e:  # noqa
+            return frame, list(c.asked), {'raised': errkind(e)}
+        if isinstance(got, Exception):
+            return frame, list(c.asked), {'error_object': True}
+        return frame, list(c.asked), pdus.resp_to_json(got)
+
+    from pymodbus.register_read_message import ReadHoldingRegistersResponse
+    trace = [call(None), call(None), call(ReadHoldingRegistersResponse(list(range(10)))), call(ExceptionResponse(3, 2))]
+    frame, asked, got = trace[-1]
+    case = {'kind': 'client-history', 'framer': fname, 'history': ['silent', 'silent', 'normal reply', 'exception reply']}
+    rep.case(('history', fname), nontrivial=True, tag='client-history:' + fname)
+    ok = got == {'t': 'exception', 'fc': 3, 'code': 2} and trace[2][2].get('t') == 'readHolding'
+    over = bool(asked) and all(a is not None for a in asked) and sum(asked) != len(frame)
+    if not ok or over:
+        rep.violation('after a history of silent transactions the client did not read exactly the exception reply', case,
+                      asked=asked, frame_len=len(frame), got=got, earlier=[t[2] for t in trace[:3]])
+
+
 def run(ctx):
     rep = Report(RULE)
     reqs = all_requests()
@@ -221,6 +258,8 @@ def run(ctx):
         if pred != real:
             rep.violation('predicted reply PDU size differs from the real reply', case, finding=classify(m, 'pdu'),
                           predicted=pred, real=real)
+    for fname in framer_names:
+        client_history(rep, fname)
     # exception replies through every framing
     for fname in framer_names:
         for m in (reqs[0], reqs[4000], {'t': 'writeRegister', 'address': 1, 'value': 2}, dreqs[0]):
@@ -236,7 +275,8 @@ def check_client(rep, fname, m, resp, exception=False):
     asked, pos, frame, got = client_roundtrip(fname, m, resp)
     flen = len(frame)
     rep.case((fname, m['t'], m.get('count', m.get('read_count', 0)), exception), nontrivial=True, tag='client:' + fname)
-    if pos != flen or got != expect or (asked and any(a is not None and a < 0 for a in asked)):
+    over = bool(asked) and all(a is not None for a in asked) and sum(asked) != flen     # asked the port for more (or fewer) bytes than the reply has
+    if pos != flen or got != expect or (asked and any(a is not None and a < 0 for a in asked)) or over:
         fid = classify(m, 'client')
         if fname == 'rtu' and m['t'] == 'diag' and len(frame) > 8 and pos == flen:
             fid = 'rtu-diag-response-size'
